@@ -501,6 +501,31 @@ example : GrownFrom [c 10 200 5, c 13 200 9, c 17 120 12] [c 10 200 5, c 13 200 
   refine GrownFrom.cons _ _ _ _ rfl (by decide) (fun _ => rfl) ?_
   exact GrownFrom.cons _ _ [] _ rfl (by decide) (by intro h; exact absurd rfl h) (GrownFrom.nil _)
 
+/-! ## chunk objects that outlive their chunk (finding F56, journal library) -/
+
+/-- F56 — two TRUNCATE statements overlap on a partition: both took the snapshot [1,2,3] and chose the two oldest
+chunks; the first one's removal has completed (wrappers 1 and 2 closed); the second one's `DeleteChunks(cks[1].Id(), …)`
+dereferences a closed wrapper. Reproduced deterministically (section trunc2race); the same dereference is reached from
+`journal.Write` and `getChunkForWrite` under several writers and one TRUNCATE loop (stress program cmd/c09crash). -/
+theorem cex_overlapping_truncates :
+    deleteArg strict { maxSrc := 120 } [c 1 100 5, c 2 100 9, c 3 100 12] [1, 2] = none ∧
+    deleteArg strict { maxSrc := 120 } [c 1 100 5, c 2 100 9, c 3 100 12] [] = some 2 := by decide
+
+/-- a statement whose snapshot was taken after every earlier removal completed never touches a closed chunk object:
+the snapshot then holds none of the closed ids (`Chunks()` excludes chunks marked for deletion) — serialising TRUNCATE
+statements would remove this path (not the writer paths inside the library) -/
+theorem serialized_truncate_never_derefs_closed (p : Params) (snap : List Chunk) (closed : List Nat)
+    (h : ∀ x ∈ snap, x.id ∉ closed) (hn : 0 < (chooseNow p snap).n) :
+    (deleteArg strict p snap closed).isSome = true := by
+  unfold deleteArg derefId
+  have hle := choose_n_le strict p snap
+  have hi : (chooseNow p snap).n - 1 < snap.length := by omega
+  have hm : snap.getD ((chooseNow p snap).n - 1) default ∈ snap := by
+    rw [List.getD_eq_getElem?_getD, List.getElem?_eq_getElem hi]; exact List.getElem_mem hi
+  have := h _ hm
+  rw [List.getD_eq_getElem?_getD] at this
+  simp [List.contains_iff_mem, this]
+
 /-! ### non-vacuity: the hypotheses above are met by concrete, non-trivial states -/
 
 def lay : List Chunk := [c 10 200 5, c 13 200 9, c 17 120 12]
